@@ -12,6 +12,8 @@ import subprocess
 import sys
 import threading
 
+import warnings
+
 import numpy as np
 from hypothesis import strategies as st
 
@@ -39,6 +41,18 @@ HANDSHAKE = 5.0
 
 class Boom(Exception):
     pass
+
+
+def _adaptive(values):
+    import physt
+
+    return physt.h1(np.array(values), "fixed_width", bin_width=1.0, adaptive=True)
+
+
+def _h2(missed):
+    from physt.histogram_nd import Histogram2D
+
+    return Histogram2D([np.array([0.0, 1.0, 2.0]), np.array([0.0, 1.0])], np.array([[1], [2]]), missed=missed)
 
 
 def _hist():
@@ -134,9 +148,19 @@ class WorkerState:
                       # an unknown (NaN) bin next to the negative one does not hide it
                       "construct_nan": lambda: Histogram1D(np.array([0.0, 1.0, 2.0, 3.0]), np.array([np.nan, -3.0, 1.0])),
                       "scale_nan": lambda: _nan_hist() * -1, "setter_nan": lambda: setattr(_nan_hist(), "frequencies", np.array([1.0, np.nan, -1.0])),
-                      "divide": lambda: _hist() / -2}[op[1]]
+                      "divide": lambda: _hist() / -2,
+                      # differences that fall below zero: same bins, in place, and adaptive operands over different ranges
+                      "subtract": lambda: _hist() - Histogram1D(np.array([0.0, 1.0, 2.0]), np.array([2, 2])),
+                      "isub": lambda: _hist().__isub__(Histogram1D(np.array([0.0, 1.0, 2.0]), np.array([0, 3]))),
+                      # ... and what lies outside the bins is content as well
+                      "subtract_underflow": lambda: Histogram1D(np.array([0.0, 1.0, 2.0]), np.array([4, 3]), underflow=1) - Histogram1D(np.array([0.0, 1.0, 2.0]), np.array([1, 1]), underflow=3),
+                      "subtract_missed_2d": lambda: _h2(0) - _h2(5),
+                      "subtract_adaptive": lambda: _adaptive([0.5, 1.5, 1.6]) - _adaptive([1.5, 3.5, 3.6]),
+                      "isub_adaptive": lambda: _adaptive([0.5, 1.5, 1.6]).__isub__(_adaptive([1.5, 3.5, 3.6]))}[op[1]]
                 try:
-                    fn()
+                    with warnings.catch_warnings():
+                        warnings.simplefilter("ignore")
+                        fn()
                     ok = True
                 except ValueError:
                     ok = False
@@ -374,7 +398,7 @@ def program(draw, max_len):
         elif c == "try_array":
             out.append(["try_array", draw(st.sampled_from(ARRAY_FORMS))])
         else:
-            out.append(["try_negative", draw(st.sampled_from(["construct", "scale", "setter", "construct_nan", "scale_nan", "setter_nan", "divide"]))])
+            out.append(["try_negative", draw(st.sampled_from(["construct", "scale", "setter", "construct_nan", "scale_nan", "setter_nan", "divide", "subtract", "isub", "subtract_adaptive", "isub_adaptive", "subtract_underflow", "subtract_missed_2d"]))])
     return out
 
 
@@ -475,3 +499,4 @@ SUBS = [
 ]
 
 RULE += ' Also: reflected and neutral-looking array operands (zeros on the left of +, ones lists, -, in-place forms), NaN bins next to negative ones, bodies left by BaseExceptions; the environment sub-check runs a generated program from the process default in the main or a fresh thread.'
+RULE += ' try_negative also: differences below zero (h - larger, h -= larger, adaptive operands over different ranges).'
